@@ -3,7 +3,7 @@
 \* Measured (5 inputs): 805,081 distinct states, depth 49.
 CONSTANTS
   NV = 4
-  Power <- DrvUnitPower
+  PowerOf <- DrvPowerOf
   MaxVal = 1
   NValid = 1
   MaxRound = 0
